@@ -35,9 +35,9 @@ LIST_REFS = [
 ]
 TYPE_NAMES = ("DirectSpeakers", "Matrix", "Objects", "HOA", "Binaural")
 
-DOC_KINDS = ("objects", "ds_stereo", "nested", "comp", "nestedpack", "silent", "hoa", "hoa0", "shared", "chna",
-             "chna_nested", "noprog", "twoprog", "avs", "matrix_direct", "matrix_decode", "matrix_encdec",
-             "matrix_pre", "mixed")
+DOC_KINDS = ("objects", "ds_stereo", "nested", "comp", "nestedpack", "silent", "hoa", "hoa0", "hoa_nested", "shared",
+             "chna", "chna_nested", "noprog", "twoprog", "avs", "matrix_direct", "matrix_decode", "matrix_encdec",
+             "matrix_pre", "emptypack", "mixed")
 
 
 def _imports():
@@ -207,6 +207,59 @@ def build(recipe):
         if var % 2:
             kw = dict(normalization="N3D", screenRef=True)
         b.create_item_hoa(track_indices=list(range(n)), orders=orders, degrees=degrees, name="hoa", **kw)
+    elif kind == "hoa_nested":
+        # outer HOA pack (own channel W) containing an inner HOA pack (three first-order channels); parameters set at
+        # different levels of the pack path / in the blocks, consistently:
+        #   var 0: nothing set; 1: normalization N3D on outer pack only; 2: screenRef on inner pack + its blocks,
+        #   nfcRefDist 2.0 on outer pack, rtime/duration on every block, absoluteDistance on outer pack;
+        #   3: nfcRefDist 0.0 on the inner pack only (== None for the others), absoluteDistance on both packs (equal)
+        c = pc()
+        v = var % 4
+        bkw = {}
+        if v == 2:
+            bkw = dict(rtime=Fraction(0), duration=Fraction(1))
+
+        def hblk(o, g, **kw):
+            return [E.AudioBlockFormatHoa(order=o, degree=g, **bkw, **kw)]
+
+        inner = b.create_pack(parent=None, audioPackFormatName="inner", type=T.HOA)
+        ich = [b.create_channel(parent=inner, audioChannelFormatName="i%d" % g, type=T.HOA,
+                                audioBlockFormats=hblk(1, g, **(dict(screenRef=True) if v == 2 else {})))
+               for g in (-1, 0, 1)]
+        outer = b.create_pack(parent=None, audioPackFormatName="outer", type=T.HOA, audioPackFormats=[inner])
+        och = b.create_channel(parent=outer, audioChannelFormatName="w", type=T.HOA,
+                               audioBlockFormats=hblk(0, 0, **(dict(screenRef=True) if v == 2 else {})))
+        if v == 1:
+            outer.normalization = "N3D"
+        elif v == 2:
+            inner.screenRef = True
+            outer.nfcRefDist = 2.0
+            outer.absoluteDistance = 1.5
+        elif v == 3:
+            inner.nfcRefDist = 0.0
+            outer.absoluteDistance = 2.5
+            inner.absoluteDistance = 2.5
+        obj = b.create_object(audioObjectName="obj", parent=c, audioPackFormats=[outer])
+        for i, (ch, pk) in enumerate([(och, outer)] + [(x, inner if var % 2 else outer) for x in ich]):
+            b.create_track_uid(parent=obj, trackIndex=i + 1, audioPackFormat=pk, **channel_track_ref(ch))
+    elif kind == "emptypack":
+        # an audioPackFormat without channels: referenced by an object without tracks (var 0), next to a real pack
+        # (var 1), as an unreferenced extra pack (var 2), or CHNA-only with an extra empty pack (var 3)
+        v = var % 4
+        tn = ("Objects", "DirectSpeakers")[(var // 4) % 2]
+        empty = b.create_pack(parent=None, audioPackFormatName="empty", type=T[tn])
+        if v == 3:
+            fmt = b.create_format_multichannel(type=T[tn], name="fmt", block_formats=[default_blocks(E, tn, 1, 0)])
+            track_for(fmt, 0, 1, None)
+        else:
+            c = pc()
+            if v == 0:
+                b.create_object(audioObjectName="obj", parent=c, audioPackFormats=[empty])
+            else:
+                fmt = b.create_format_multichannel(type=T[tn], name="fmt", block_formats=[default_blocks(E, tn, 1, 0)])
+                obj = b.create_object(audioObjectName="obj", parent=c,
+                                      audioPackFormats=[fmt.pack_format] + ([empty] if v == 1 else []))
+                track_for(fmt, 0, 1, obj)
     elif kind == "shared":
         c = pc()
         fmt = b.create_format_multichannel(type=T.Objects, name="fmt", block_formats=[default_blocks(E, "Objects")])
@@ -337,6 +390,10 @@ def fault_sites(doc, rng=None, max_targets=None):
     ("tidx", addr, None|k)                   missing / duplicated track index
     ("param", addr, name)                    object parameter (start, duration, gain, mute, positionOffset, avs)
     ("chan", addr, what)                     channel-level: noblocks twoblocks freq cart noorder nodegree equation duporder
+                                             norm scr nfc0 nfc nfc2 (HOA block parameters) rtime duration time time2
+    ("ppar", addr, what)                     pack parameters: norm scr nfc0 nfc nfc2 (HOA) absdist absdist2 (any type)
+    ("cpar"/"cdel", (acf,i), b, k)           matrix coefficient k of block b: phase set / negative delay
+    ("coded", (asf,i), (apf,j))              stream references a pack instead of a channel
     ("bset", (acf,i), attr, target|None)     matrix block outputChannelFormat
     ("cset", (acf,i), k, target|None)        matrix coefficient k inputChannelFormat
     ("avs", addr, op)                        alternativeValueSet references: drop / dup / foreign
@@ -408,7 +465,9 @@ def fault_sites(doc, rng=None, max_targets=None):
         if c.type.name == "Objects":
             whats.append("cart")
         if c.type.name == "HOA":
-            whats += ["noorder", "nodegree", "equation", "duporder", "norm", "scr"]
+            whats += ["noorder", "nodegree", "equation", "duporder", "norm", "scr", "nfc0", "nfc", "nfc2"]
+        # block timing (any type): rtime without duration, duration without rtime, both (two different values)
+        whats += ["rtime", "duration", "time", "time2"]
         for w in whats:
             out.append(("chan", ("acf", i), w))
         if c.type.name == "Matrix":
@@ -420,13 +479,21 @@ def fault_sites(doc, rng=None, max_targets=None):
                         out.append(("bset", ("acf", i), bi, t))
                     for k, co in enumerate(blk.matrix):
                         out.append(("cpar", ("acf", i), bi, k))
+                        out.append(("cdel", ("acf", i), bi, k))
                         out.append(("cset", ("acf", i), bi, k, None))
                         for t in targets("acf", idx_of("acf", co.inputChannelFormat)):
                             out.append(("cset", ("acf", i), bi, k, t))
     for i, pk in enumerate(adm.audioPackFormats):
         if pk.type.name == "HOA":
-            out.append(("ppar", ("apf", i), "norm"))
-            out.append(("ppar", ("apf", i), "scr"))
+            for w in ("norm", "scr", "nfc0", "nfc", "nfc2"):
+                out.append(("ppar", ("apf", i), w))
+        out.append(("ppar", ("apf", i), "absdist"))
+        out.append(("ppar", ("apf", i), "absdist2"))
+    # a "coded format" stream: audioStreamFormat -> audioPackFormat instead of -> audioChannelFormat (passes
+    # AudioStreamFormat.validate, rejected by validate_selected_audioTrackUID when one of its tracks is selected)
+    if n["apf"]:
+        for i in range(n["asf"]):
+            out.append(("coded", ("asf", i), ("apf", i % n["apf"])))
     for kind in ("ap", "ac"):
         for i, e in enumerate(getattr(adm, LISTS[kind])):
             if e.alternativeValueSets:
@@ -493,10 +560,12 @@ def fault_kind(f):
         return "channel-content"
     if op == "ppar":
         return "hoa-pack-parameter"
-    if op == "cpar":
+    if op in ("cpar", "cdel"):
         return "matrix-coefficient-parameter"
     if op in ("bset", "cset"):
         return "matrix-ref-remove" if f[-1] is None else "matrix-ref-retarget"
+    if op == "coded":
+        return "stream-to-pack"
     if op == "avs":
         return "avs-ref"
     if op == "order":
@@ -522,10 +591,14 @@ def site_kind(f):
         return "block.outputChannelFormat"
     if op == "cpar":
         return "coefficient.phase"
+    if op == "cdel":
+        return "coefficient.delay"
     if op == "cset":
         return "coefficient.inputChannelFormat"
     if op == "avs":
         return "%s.alternativeValueSets" % f[1][0]
+    if op == "coded":
+        return "asf.audioPackFormat"
     if op == "order":
         return "adm.%s-list" % f[1]
     return op
@@ -588,6 +661,18 @@ def apply_fault(doc, f):
                 if not c.audioBlockFormats:
                     return False
                 c.audioBlockFormats[0].cartesian = True
+            elif w in ("rtime", "duration", "time", "time2"):
+                if not c.audioBlockFormats:
+                    return False
+                blk = c.audioBlockFormats[0]
+                if w == "rtime":
+                    blk.rtime, blk.duration = Fraction(0), None
+                elif w == "duration":
+                    blk.rtime, blk.duration = None, Fraction(1)
+                elif w == "time":
+                    blk.rtime, blk.duration = Fraction(0), Fraction(1)
+                else:
+                    blk.rtime, blk.duration = Fraction(1, 2), Fraction(2)
             else:
                 if not c.audioBlockFormats or not hasattr(c.audioBlockFormats[0], "order"):
                     return False
@@ -602,21 +687,44 @@ def apply_fault(doc, f):
                     blk.normalization = "FuMa"
                 elif w == "scr":
                     blk.screenRef = True
+                elif w == "nfc0":
+                    blk.nfcRefDist = 0.0
+                elif w == "nfc":
+                    blk.nfcRefDist = 2.0
+                elif w == "nfc2":
+                    blk.nfcRefDist = 3.0
                 else:
                     blk.order, blk.degree = 0, 0
         elif op == "ppar":
+            pk = doc.elem(f[1])
             if f[2] == "norm":
-                doc.elem(f[1]).normalization = "FuMa"
+                pk.normalization = "FuMa"
+            elif f[2] == "scr":
+                pk.screenRef = True
+            elif f[2] == "nfc0":
+                pk.nfcRefDist = 0.0
+            elif f[2] == "nfc":
+                pk.nfcRefDist = 2.0
+            elif f[2] == "nfc2":
+                pk.nfcRefDist = 3.0
+            elif f[2] == "absdist":
+                pk.absoluteDistance = 1.0
             else:
-                doc.elem(f[1]).screenRef = True
+                pk.absoluteDistance = 2.0
         elif op == "bset":
             blk = doc.elem(f[1]).audioBlockFormats[f[2]]
             blk.outputChannelFormat = None if f[3] is None else doc.elem(tuple(f[3]))
         elif op == "cpar":
             doc.elem(f[1]).audioBlockFormats[f[2]].matrix[f[3]].phase = 90.0
+        elif op == "cdel":
+            doc.elem(f[1]).audioBlockFormats[f[2]].matrix[f[3]].delay = -1.0
         elif op == "cset":
             co = doc.elem(f[1]).audioBlockFormats[f[2]].matrix[f[3]]
             co.inputChannelFormat = None if f[4] is None else doc.elem(tuple(f[4]))
+        elif op == "coded":
+            st = doc.elem(f[1])
+            st.audioChannelFormat = None
+            st.audioPackFormat = doc.elem(tuple(f[2]))
         elif op == "avs":
             e = doc.elem(f[1])
             if f[2] == "drop":
@@ -669,7 +777,12 @@ def build_faulty(recipe, faults):
 
 FAMILIES = [
     ("objloop", r"^loop detected in audioObjects"),
-    ("leafparam", r"has both audioObject references and"),
+    ("leafstart", r"has both audioObject references and start"),
+    ("leafduration", r"has both audioObject references and duration"),
+    ("leafgain", r"has both audioObject references and gain"),
+    ("leafmute", r"has both audioObject references and mute"),
+    ("leafoffset", r"has both audioObject references and positionOffset"),
+    ("leafavs", r"has both audioObject references and alternativeValueSet"),
     ("packchtype", r"but contains audioChannelFormat"),
     ("subpacktype", r"but contains audioPackFormat"),
     ("packloop", r"^loop detected in audioPackFormats"),
@@ -686,8 +799,6 @@ FAMILIES = [
     ("unsupportedtype", r"^Don't know how to produce rendering items for type"),
     ("coeffnoinput", r"^MatrixCoefficient must have an inputChannelFormat"),
     ("blocktime", r"^rtime and duration must be used together"),
-    ("paramshare", r"must share the same"),
-    ("parampath", r"^Conflicting \w+ values in path"),
     ("mxnoio", r"must have an input or output audioPackFormat"),
     ("mxinmatrix", r"inputPackFormat reference in .* must not be of Matrix"),
     ("mxoutmatrix", r"outputPackFormat reference in .* must not be of Matrix"),
@@ -706,7 +817,8 @@ FAMILIES = [
     ("nmxencode", r"^non-matrix audioPackFormat .* has encodePackFormat"),
     ("mxchblocks", r"^matrix audioChannelFormat .* does not have a single audioBlockFormat"),
     ("mxchtime", r"has rtime or duration attributes"),
-    ("mxchparam", r"attribute used in .* (is not supported|must be non-negative)"),
+    ("mxchvar", r"attribute used in .* is not supported"),
+    ("mxchdelay", r"attribute used in .* must be non-negative"),
     ("v2ref", r"are not valid before BS.2076-2"),
     ("tracknone", r"is not linked to an audioTrackFormat or audioChannelFormat"),
     ("trackboth", r"is linked to both an audioTrackFormat and a audioChannelFormat"),
@@ -730,11 +842,118 @@ import re as _re
 _FAM = [(k, _re.compile(p, _re.S)) for k, p in FAMILIES]
 
 
+_PARAM = [("paramshare", _re.compile(r"must share the same (\w+) value")),
+          ("parampath", _re.compile(r"^Conflicting (\w+) values in path"))]
+
+
 def family(msg):
+    """message family = the model's AdmKind name (parameter helpers: `<kind>.<parameter name>`); the two messages of
+    `_validate_matrix_apf_references` that share their text (pack itself / referenced encode pack without input and
+    output reference) are told apart by the raise site, see `real_class`"""
+    for k, p in _PARAM:
+        m = p.search(msg)
+        if m:
+            return "%s.%s" % (k, m.group(1))
     for k, p in _FAM:
         if p.search(msg):
             return k
     return "other:" + msg[:60]
+
+
+# --------------------------------------------------------------------------------------
+# raise sites: (qualified function name, ordinal of the `raise` statement in that function), computed from the sources
+
+
+_SITE_CACHE = {}
+
+
+def _file_sites(filename):
+    """{qualname: [(lineno, end_lineno, exception name)] in source order} for every function of a source file"""
+    import ast
+    if filename in _SITE_CACHE:
+        return _SITE_CACHE[filename]
+    with open(filename) as f:
+        tree = ast.parse(f.read())
+    out = {}
+
+    def exc_name(node):
+        e = node.exc
+        if isinstance(e, ast.Call):
+            e = e.func
+        if isinstance(e, ast.Name):
+            return e.id
+        if isinstance(e, ast.Attribute):
+            return e.attr
+        return "?"
+
+    def raises_of(fn):
+        found = []
+
+        def walk(n):
+            for ch in ast.iter_child_nodes(n):
+                if isinstance(ch, (ast.FunctionDef, ast.AsyncFunctionDef, ast.Lambda, ast.ClassDef)):
+                    continue
+                if isinstance(ch, ast.Raise) and ch.exc is not None:
+                    found.append((ch.lineno, ch.end_lineno, exc_name(ch)))
+                walk(ch)
+
+        walk(fn)
+        return sorted(found)
+
+    def visit(node, prefix):
+        for ch in ast.iter_child_nodes(node):
+            if isinstance(ch, (ast.FunctionDef, ast.AsyncFunctionDef)):
+                q = prefix + ch.name
+                out[q] = raises_of(ch)
+                visit(ch, q + ".")
+            elif isinstance(ch, ast.ClassDef):
+                visit(ch, prefix + ch.name + ".")
+            else:
+                visit(ch, prefix)
+
+    visit(tree, "")
+    _SITE_CACHE[filename] = out
+    return out
+
+
+def raise_site(tb):
+    """(qualified function name, ordinal) of the `raise` statement the traceback ends in, or (name, 0)"""
+    while tb.tb_next is not None:
+        tb = tb.tb_next
+    code = tb.tb_frame.f_code
+    q = getattr(code, "co_qualname", code.co_name).replace("<locals>.", "")
+    try:
+        sites = _file_sites(code.co_filename).get(q, [])
+    except (OSError, SyntaxError):
+        sites = []
+    for n, (lo, hi, _) in enumerate(sites):
+        if lo <= tb.tb_lineno <= hi:
+            return q, n + 1
+    return q, 0
+
+
+SITE_FILES = ("core/select_items/validate.py", "core/select_items/select_items.py", "core/select_items/utils.py",
+              "core/select_items/hoa.py", "core/select_items/matrix.py", "core/select_items/pack_allocation.py",
+              "fileio/adm/elements/main_elements.py", "fileio/adm/elements/block_formats.py")
+# `raise` statements in those files that item selection cannot reach / that are not failures
+SITES_NOT_MODELLED = {
+    ("_link_track_stream_format", 1): "only called while references are being resolved (lazy_lookup_references)",
+    ("_PackAllocator.OutputAllocationPack.output_channel_allocation", 1): "abstract method, both subclasses override it",
+    ("_allocate_packs_impl_obvious.allocate_channel", 1): "_NotPossible: internal control flow, caught in the same function",
+}
+
+
+def code_sites():
+    """every `raise` statement of the modules item selection runs through: {(qualname, ordinal): exception name}"""
+    import os
+    import ear
+    root = os.path.dirname(ear.__file__)
+    out = {}
+    for rel in SITE_FILES:
+        for q, lst in _file_sites(os.path.join(root, rel)).items():
+            for n, (_, _, name) in enumerate(lst):
+                out[(q, n + 1)] = name
+    return out
 
 
 def run_real(doc):
@@ -751,10 +970,20 @@ def run_real(doc):
             items = select_rendering_items(doc.adm, audio_programme=prog, selected_complementary_objects=sel)
             return {"cls": "items", "n": len(items)}
         except AdmError as e:
-            msg = str(e)
+            site = raise_site(e.__traceback__)
+            try:
+                msg = str(e)
+            except Exception as e2:  # the message itself cannot be formatted: as bad as any other escaping exception
+                tb = traceback.extract_tb(e2.__traceback__)
+                return {"cls": "internal", "exc": type(e2).__name__, "fn": "AdmError.__str__:" + tb[-1].name,
+                        "msg": str(e2)[:200], "frames": []}
             if not msg:
                 return {"cls": "internal", "exc": "AdmErrorWithoutMessage", "fn": "?", "msg": "", "frames": []}
-            return {"cls": "adm", "exc": type(e).__name__, "kind": family(msg), "msg": msg[:300]}
+            kind = family(msg)
+            if kind == "mxnoio" and site == ("_validate_matrix_apf_references", 7):
+                kind = "mxencnoio"
+            return {"cls": "adm", "exc": type(e).__name__, "kind": kind, "msg": msg[:300], "full": msg,
+                    "site": "%s:%d" % site, "reasons": list(getattr(e, "reasons", []) or [])}
         except RecursionError as e:
             return {"cls": "internal", "exc": "RecursionError", "fn": "?", "msg": "recursion", "frames": []}
         except Exception as e:
